@@ -46,7 +46,8 @@ func (wu *WindowUpdate) Deserialize(fr *FrameHeader) error {
 }
 
 func (wu *WindowUpdate) Serialize(fr *FrameHeader) {
+	// the increment is 31 bits; the first bit is reserved and sent as zero
 	fr.payload = http2utils.AppendUint32Bytes(
-		fr.payload[:0], uint32(wu.increment))
+		fr.payload[:0], uint32(wu.increment)&(1<<31-1))
 	fr.length = 4
 }
